@@ -164,3 +164,14 @@ Proof.
   cbv zeta. split; [vm_compute; reflexivity|]. split; [repeat (constructor; cbn; try lia)|].
   eexists. split; [vm_compute; reflexivity|]. vm_compute. reflexivity.
 Qed.
+
+(* the generator domain *)
+Theorem zoom_stats_ieee_in_domain ips size chrom len vals st : 1 <= size -> wf_vals len vals ->
+  in_exact_domain vals = true ->
+  zoom_chrom ieee ips size chrom vals zstate0 = Ok st ->
+  Forall (fun r => exact_stats r (contribs (z_start r) (z_end r) vals)) (concat (zs_out st)).
+Proof.
+  intros Hsz Hwf Hd Hrun. destruct (in_exact_domain_hyps vals Hd) as (Hok & Hg & B1 & B2).
+  pose proof (zoom_stats_ieee_on_grid dom_E dom_G ips size chrom len vals st Hsz Hwf Hok Hg B1 B2 Hrun) as H.
+  eapply Forall_impl; [|exact H]. cbv beta zeta. intros r (X & _). exact X.
+Qed.
